@@ -41,14 +41,15 @@ LEVEL_NOTE = ("Reading (DESIGN section 7): a rejection whose error string equals
               "server is active is subscribed only there; on revert to the primary it is unsubscribed and never subscribed on the primary "
               "(res entry with ch=-).")
 GAP = ("order of callbacks of different watchers inside one quiescence step (compared per watcher); real gRPC transport; wall-clock; "
-       "more than two authorities / authorities with different server lists")
+       "more than two authorities; authority b's server list is always a suffix of the top-level list (cfg 5th field)")
 ASSUMPTIONS = ["every watch registers a watcher object that is not currently registered", "decoder errors are compared by their string",
                "the backoff function is the constant 1 s and the watch expiry 2505 ms passed by the harness"]
 RULE = ("30% directed skeletons (accept/reject/re-accept, SotW removal with and without ignore_resource_deletion, watch expiry incl. a cached resource expiring on a fallback server, rejected-with-nothing-cached, stream failures before/after the first response, last watcher leaves) followed by a random tail; 70% random histories (6-70 events) for 1-3 servers with random ignore_resource_deletion bits: watch/unwatch of 3 names over 2 types "
         "(one with AllResourcesRequiredInSotW) + an unknown type, responses from any server with valid / invalid / nameless resources and "
         "fresh or repeated versions, stream breaks, servers going down/up, sleeps around the 1 s backoff and the 2505 ms watch expiry, "
         "hold/release of the top-level authority's serializer (events queue up and are processed in order), transport-creation faults "
-        "(nobuild), close. About 30% of the watches go to a second authority `b` (xdstp://b/...) that has the same server list, so the two "
+        "(nobuild), close. About 30% of the watches go to a second authority `b` (xdstp://b/...) whose server list is the top-level list from a random "
+        "index on (40%: a proper suffix, i.e. different lists sharing some servers), so the two "
         "authorities share (ref-counted) xdsChannels: directed skeletons cancel the last watch of one authority while the other still "
         "watches, and let both fall back and revert. Non-trivial: at least 3 ops "
         "with watcher callbacks; distinct = distinct op list")
@@ -194,7 +195,9 @@ def gen(rng, tier):
     for i in range(n):
         ns = rng.choice([1, 1, 2, 2, 3])
         ign = "".join(rng.choice("001") for _ in range(ns))
-        ops = ["cfg %d %s c43" % (ns, ign)]
+        # authority b is configured with the top-level servers from index boff on (0: identical lists)
+        boff = rng.randrange(ns) if rng.random() < 0.4 else 0
+        ops = ["cfg %d %s c43 %d" % (ns, ign, boff)]
         if rng.random() < 0.3:
             ops += directed(rng, ns)
             tail = gen_ops(rng, rng.randrange(0, ln // 2), ns, allow_hold=rng.random() < 0.4)
